@@ -10,7 +10,7 @@
        neither sepc nor NL and the converted first PSM line does not start with "DefaultDirection".
    Nothing is left for the default separators only; the default instances (convert_file, is_valid of
    Model/Fs.v) are corollaries at the end. *)
-From Mokaverif Require Import Model.Base Model.PinTsv Proofs.PinTsvP.
+From Mokaverif Require Import Model.Base Model.PinTsv Model.PinVerify Proofs.PinTsvP Proofs.PinVerifyP.
 Open Scope Z_scope.
 
 (* every non-protein field unchanged, proteins joined by the requested separator, wherever the
@@ -90,6 +90,22 @@ Theorem C19_out_ok_default : forall p, wf TAB p ->
 Proof. exact default_out_ok. Qed.
 Print Assumptions C19_out_ok_default.
 
+(* the CLI's verify step on one well-formed PIN file (Model/PinVerify.v: is_valid_tsv, then
+   pin_to_valid_tsv unless it said "valid", both with the default separators): it does not raise;
+   the file is either left as it was (it was valid) or replaced by the rectangular table; what it
+   holds afterwards is valid, and running the step again changes nothing *)
+Theorem C19_verify_step : forall final_nl p, wf TAB p -> out_ok TAB [COLON] p ->
+  exists t, pin_verify_text (render_pin TAB final_nl p) = Ok t /\
+    ((t = render_pin TAB final_nl p /\ is_valid (render_pin TAB final_nl p) = Ok true)
+     \/ (t = render_tsv TAB [COLON] p /\ is_valid (render_pin TAB final_nl p) = Ok false)) /\
+    is_valid t = Ok true /\ pin_verify_text t = Ok t.
+Proof. exact pin_verify_ok. Qed.
+Print Assumptions C19_verify_step.
+
+Theorem C19_verify_valid_untouched : forall txt, is_valid txt = Ok true -> pin_verify_text txt = Ok txt.
+Proof. exact pin_verify_valid_untouched. Qed.
+Print Assumptions C19_verify_valid_untouched.
+
 (* non-vacuity: a PIN with the protein column in the middle, a DefaultDirection line,
    rows with 2 and 1 proteins satisfies wf — with TAB and with "," as column separator;
    the FIRST PSM has several proteins *)
@@ -152,3 +168,9 @@ Example C19_ex_runs_sep :
   is_valid_sep COMMA (render_tsv COMMA BARS (ex_pin_of COMMA)) = Ok true /\
   is_valid_sep COMMA (render_pin COMMA true (ex_pin_of COMMA)) = Ok false.
 Proof. repeat split; try (vm_compute; reflexivity); vm_compute; discriminate. Qed.
+
+(* the verify step on the example: the ragged PIN is replaced by the table, the table is left alone *)
+Example C19_ex_verify :
+  pin_verify_text (render_pin TAB false ex_pin) = Ok (render_tsv TAB [COLON] ex_pin) /\
+  pin_verify_text (render_tsv TAB [COLON] ex_pin) = Ok (render_tsv TAB [COLON] ex_pin).
+Proof. split; vm_compute; reflexivity. Qed.
